@@ -364,6 +364,8 @@ type Walk struct {
 	Stop func(in ssa.Instruction) bool
 	// SkipEdge: edge b -> b.Succs[k] is not followed.
 	SkipEdge func(b *ssa.BasicBlock, k int) bool
+	// InitFacts: what is assumed about error values at the start instructions.
+	InitFacts facts
 
 	visitedBlockEntry map[*ssa.BasicBlock]bool
 	parent            map[*ssa.BasicBlock]edge // how a block entry was first reached
@@ -414,7 +416,7 @@ func (w *Walk) From(starts ...ssa.Instruction) {
 		b := s.Block()
 		for i, in := range b.Instrs {
 			if in == s {
-				work = append(work, item{b, i + 1, ""})
+				work = append(work, item{b, i + 1, w.InitFacts})
 				w.startBlock[b] = true
 			}
 		}
